@@ -221,7 +221,8 @@ def run(ctx, replay=None):
                 t['cfg'] = variant_cfg(v, K6)
                 t['id'] = 'trie-sim-%s-%d-%d-%s-km%d-vm%d' % (s[1], ctx.seed, k, v[0], v[1], v[2])
             else:
-                t['cfg'] = sdb_cfgs[s[1]]
+                # storage value classes: leading / trailing zero bytes, 1 next to 0x100, lone top byte (driver: valset)
+                t['cfg'] = dict(sdb_cfgs[s[1]], valset=(k + ctx.seed) % 4)
                 t['id'] = 'statedb-sim-%s-%d-%d' % (s[1], ctx.seed, k)
             traces.append(t)
         ctx.log('simulated %s/%s: %d behaviours' % (s[0], s[1], len(ts)))
